@@ -17,6 +17,7 @@ import elementpath.aliases as ta
 
 from elementpath.exceptions import ElementPathError, ElementPathSyntaxError
 from elementpath.namespaces import XSD_NAMESPACE
+from elementpath.helpers import split_white_spaces
 from elementpath.datatypes import AbstractDateTime, Duration, Date, DateTime, \
     DateTimeStamp, Time, UntypedAtomic, QName, HexBinary, Base64Binary, \
     BooleanProxy, AnyURI, Notation, NMToken, Idref, Entity, DateTime10, ErrorProxy
@@ -573,9 +574,9 @@ def evaluate__error_type_and_function(self: XPathConstructor,
 @constructor('NMTOKENS', sequence_types=('xs:NMTOKEN*',))
 def cast__nmtokens(self: XPathConstructor, value: ta.AtomicType) -> list[NMToken]:
     if isinstance(value, UntypedAtomic):
-        values = value.value.split() or [value.value]
+        values = split_white_spaces(value.value) or [value.value]
     elif hasattr(value, 'split'):
-        values = value.split() or [value]
+        values = split_white_spaces(value) or [value]
     else:
         raise self.error('FORG0001')
 
@@ -588,9 +589,9 @@ def cast__nmtokens(self: XPathConstructor, value: ta.AtomicType) -> list[NMToken
 @constructor('IDREFS', sequence_types=('xs:IDREF*',))
 def cast__idrefs(self: XPathConstructor, value: ta.AtomicType) -> list[Idref]:
     if isinstance(value, UntypedAtomic):
-        values = value.value.split() or [value.value]
+        values = split_white_spaces(value.value) or [value.value]
     elif hasattr(value, 'split'):
-        values = value.split() or [value]
+        values = split_white_spaces(value) or [value]
     else:
         raise self.error('FORG0001')
 
@@ -603,9 +604,9 @@ def cast__idrefs(self: XPathConstructor, value: ta.AtomicType) -> list[Idref]:
 @constructor('ENTITIES', sequence_types=('xs:ENTITY*',))
 def cast__entities(self: XPathConstructor, value: ta.AtomicType) -> list[Entity]:
     if isinstance(value, UntypedAtomic):
-        values = value.value.split() or [value.value]
+        values = split_white_spaces(value.value) or [value.value]
     elif hasattr(value, 'split'):
-        values = value.split() or [value]
+        values = split_white_spaces(value) or [value]
     else:
         raise self.error('FORG0001')
 
